@@ -217,10 +217,14 @@ void vfps::RotationMap::genHInfo(vfps::meshindex_t x0,
     interpol_t yf = std::modf(y1r, &y1r);
 
     // new coordinates integer parts
-    meshindex_t x1 = static_cast<meshindex_t>(x1r);
-    meshindex_t y1 = static_cast<meshindex_t>(y1r);
+    // (only positions inside the mesh are converted to an index: casting
+    // a negative, too large or NaN float to unsigned is undefined behaviour)
+    const bool inside = ( x1r >= 0 && x1r < static_cast<meshaxis_t>(_xsize)
+                       && y1r >= 0 && y1r < static_cast<meshaxis_t>(_ysize));
+    meshindex_t x1 = inside ? static_cast<meshindex_t>(x1r) : 0;
+    meshindex_t y1 = inside ? static_cast<meshindex_t>(y1r) : 0;
 
-    if (x1 <  _xsize && y1 < _ysize) {
+    if (inside) {
         // create vectors containing interpolation coefficiants
         calcCoefficiants(icq.get(),xf,_it);
         calcCoefficiants(icp.get(),yf,_it);
